@@ -175,6 +175,9 @@ class Ctx(object):
         return self.check(obligation, ok, case, features, expected, observed, msg)
 
     def raises(self, obligation, fn, exc_types, case=None, features=None, msg=None):
+        # a rejection is a deliberate exception: the library's own GeomdlException or a ValueError (both are used for
+        # invalid arguments); which of the two is not part of any property
+        exc_types = tuple(exc_types) + (ValueError,)
         try:
             fn()
         except exc_types:
